@@ -71,21 +71,24 @@ def _cmp_coefficient(a, b):
     elif x > y:
         return 1
     else:
-        return 0
+        # Same count does not imply the same coefficient
+        return _cmp_terminal_by_repr(a, b)
 
 
 def _cmp_argument(a, b):
     """Cmp argument."""
     # It's ok to compare relative number and part for Arguments,
     # since their ordering is a property of the form
-    x = (a._number, a._part)
-    y = (b._number, b._part)
+    # (a part of None sorts before any numbered part)
+    x = (a._number, a._part is not None, a._part or 0)
+    y = (b._number, b._part is not None, b._part or 0)
     if x < y:
         return -1
     elif x > y:
         return 1
     else:
-        return 0
+        # Same number and part does not imply the same argument
+        return _cmp_terminal_by_repr(a, b)
 
 
 def _cmp_terminal_by_repr(a, b):
